@@ -101,6 +101,13 @@ def items(tier):
         out.append((sp, {"rule": "TSLACK", "max_time": F.seq_bound(sp) + 8}))
     for sp in F.nested_order_specs() + [F.loaned_worker_spec()] + F.two_pair_specs() + F.double_link_specs()[::5]:
         out.append((sp, {"rule": "TSLACK", "max_time": F.seq_bound(sp) + 8}))
+    # other ways of building the object graph (copy twins, subclasses, bottom-up assembly, late calendars) and teams that know their tasks through the constructor keyword only
+    for sp in F.usage_specs():
+        if "parent-child:one-cap1" not in sp["label"] and ("bottom-up:fac" not in sp["label"] or sp["label"].endswith("two:both")):
+            out.append((sp, {"rule": "TSLACK", "max_time": F.seq_bound(sp) + 10}))
+    for fl in list(F.flows(3, ("FS", "SS"), (2, 3)))[::3]:
+        sp = F.with_teams(fl, "TWOTEAM")
+        out.append((dict(sp, teams=[dict(tm, wire="ctor") for tm in sp["teams"]]), {"rule": "TSLACK", "max_time": F.seq_bound(sp) + 10}))
     out.append((F.long_idle_spec(130), {"rule": "TSLACK", "max_time": 160}))  # more than a hundred idle steps in the middle of the run
     for sp, o in F.scale_items():
         if not o.get("res_absence") and o["absence"] in ([], F.SCALE_ABSENCE[1]) and (tier == "thorough" or sp["label"] in ("scale:long-unsorted-calendars", "scale:8components", "scale:layers3x4", "scale:queue-of-nine")):
